@@ -93,11 +93,14 @@ def worlds(va: int, u21: int, up: int) -> bool:
                     for m2pub in (False, True):
                         for target in ("m1", "m2"):
                             for la, su in ((0, 0), (1, 0), (2, 0), (3, 0), (0, 1), (2, 1)):
-                                w = W(m1p, VIS[va], vb, 0, u21, m2p, m2pub, target, up, la, su)
-                                msg = check_world(w)
-                                if msg:
-                                    FAIL.append(msg)
-                                    ok = False
+                                for vex in ((0, 2) if m1p else (0, -2)):
+                                    w = W(m1p, VIS[va], vb, 0, u21, m2p, m2pub, target, up, la, su, vis_ex=vex)
+                                    msg = check_world(w)
+                                    if msg:
+                                        FAIL.append(msg)
+                                        ok = False
+                                        break
+                                if not ok:
                                     break
                             if not ok:
                                 break
